@@ -456,7 +456,21 @@ def strict_matrix(ctx):
                                                                                      f"between logical types {sorted(by_logical)}"})
 
 
+def child_case(ctx, rng, k):
+    if k == 0:
+        type_pairs(ctx)
+        flow_object_pairs(ctx)
+        limits(ctx)
+        strict_matrix(ctx)
+    else:
+        header_case(ctx, rng)
+
+
 def run_shard(ctx):
+    if ctx.shard == 1 % ctx.nshards:
+        # the finite tables and a slice of the header cases again in an interpreter started with -O
+        from .. import childopt
+        childopt.run(ctx, ID, 150)
     if ctx.shard == 0:
         type_pairs(ctx)
         flow_object_pairs(ctx)
